@@ -1,4 +1,4 @@
-from typing import Mapping, MutableMapping
+from typing import Any, Mapping, MutableMapping
 
 from spec_classes.methods.collections import MAPPING_METHODS
 from spec_classes.types import MISSING
@@ -27,6 +27,12 @@ class MappingMutator(CollectionAttrMutator):
         return value_or_index, self.collection.get(value_or_index, MISSING)
 
     def _inserter(self, index, item):
+        type_args = getattr(self.attr_spec.type, "__args__", None) or ()
+        key_type = type_args[0] if len(type_args) == 2 else Any
+        if not check_type(index, key_type):
+            raise ValueError(
+                f"Attempted to add an invalid key `{repr(index)}` to `{self.attr_spec.qualified_name}`. Expected key of type `{type_label(key_type)}`."
+            )
         if not check_type(item, self.attr_spec.item_type):
             raise ValueError(
                 f"Attempted to add an invalid item `{repr(item)}` to `{self.attr_spec.qualified_name}`. Expected item of type `{type_label(self.attr_spec.item_type)}`."
